@@ -1080,7 +1080,7 @@ func (c *cenv) TypedUF(name string) ([]types.Type, types.Type, bool) {
 		return []types.Type{types.Typ[types.Uint64], dec}, coins, true
 	case "coinsIsAnyGTE":
 		return []types.Type{coins, coins}, types.Typ[types.Bool], true
-	case "decCoinsIsZero":
+	case "decCoinsIsZero", "decCoinsValid":
 		return []types.Type{dec}, types.Typ[types.Bool], true
 	case "txFee":
 		return []types.Type{types.NewInterfaceType(nil, nil)}, coins, true
